@@ -1,4 +1,5 @@
 import NibabelModel.Model.C02
+import NibabelModel.Model.C02_Route
 import Driver.Util
 /-! Line-protocol driver for C02: `C02 <op> <args...>` -> one observable line.
 
@@ -16,6 +17,16 @@ import Driver.Util
   fr <in> <vals>                                  finite_range -> `<mn> <mx> <has_nan>` | `none <has_nan>`
   shr <p> <out>                                   shared_range -> `<mn> <mx>`
   fe <p> <v>                                      floor_exact / ceil_exact -> `<floor> <ceil>`
+  rd <K> <slopeF> <interF> <gl>                   header reader get_slope_inter of class K ∈ nifti|spm99|spm2|analyze on raw
+                                                  field values (p/q | nan | inf | -inf), gl = glmax:glmin:calmax:calmin | _
+        -> `<slope|N> <inter|N>` | `ERR:<kind>`
+  rt|rtd <K> <dk> <route> <slopeF> <interF> <gl> <post> <pre> <src> <in> <hd> <arg> <data>
+        construction route (same|fromimage|hdrraw) from a donor of class dk with raw fields, optional direct assignment
+        `post` to slot 2 of the final image header, pre-save history `pre` (`;`-list of fd.<f16|f32|f64>.<1|0> | ed.<op> |
+        unc | eo.<op>, op ∈ zero|clip0|neg), src = arr (data = values of dtype `in`) | disk (data = raw integers of type
+        `in` in a dk file with those fields, loaded), then ONE to_file_map(dtype=arg) on header dtype hd
+        -> `ok <s> <b> [raw] D <f1> <f2> H <dtype> <f1> <f2>` (s, b as the READER of K gets them from the disk fields D;
+           H = image header afterwards) | `ERR:<kind> H …` | `ERR:HeaderDataError@load` | `unmodelled`
 -/
 namespace Nb.Drv.C02
 open Nb Nb.C02
@@ -83,7 +94,119 @@ def showErr : Err → String
   | .value => "ERR:ValueError"
   | .castNaN => "ERR:CastNaN"
 
+def parseFld? (s : String) : Option Fld :=
+  if s = "nan" then some .nan
+  else if s = "inf" then some .pinf
+  else if s = "-inf" then some .ninf
+  else (parseRat? s).map Fld.fin
+
+def showFld : Fld → String
+  | .fin r => showRat r
+  | .nan => "nan"
+  | .pinf => "inf"
+  | .ninf => "-inf"
+
+/-- decision-level rendering of a field the writer computed -/
+def showFldKind : Fld → String
+  | .fin r => if r = 0 then "0" else "v"
+  | f => showFld f
+
+def parseHK? (s : String) : Option HK :=
+  if s = "nifti" then some .nifti else if s = "spm99" then some .spm99
+  else if s = "spm2" then some .spm2 else if s = "analyze" then some .analyze else none
+
+def parseRoute? (s : String) : Option Route :=
+  if s = "same" then some .same else if s = "fromimage" then some .fromImage
+  else if s = "hdrraw" then some .hdrRaw else none
+
+def parseGl? (s : String) : Option GlCal :=
+  if s = "_" then some .zero else
+  match s.splitOn ":" with
+  | [a, b, c, d] => match a.toInt?, b.toInt?, parseRat? c, parseRat? d with
+                    | some a, some b, some c, some d => some ⟨a, b, c, d⟩
+                    | _, _, _, _ => none
+  | _ => none
+
+def parseFT? (s : String) : Option FT :=
+  if s = "f16" then some .f16 else if s = "f32" then some .f32 else if s = "f64" then some .f64 else none
+
+def parseEdit? (s : String) : Option EditOp :=
+  if s = "zero" then some .zero else if s = "clip0" then some .clip0 else if s = "neg" then some .neg else none
+
+def parseHOp? (s : String) : Option HOp :=
+  match s.splitOn "." with
+  | ["fd", t, f] => match parseFT? t, (if f = "1" then some true else if f = "0" then some false else none) with
+                    | some t, some f => some (.fd t f)
+                    | _, _ => none
+  | ["ed", e] => (parseEdit? e).map HOp.edit
+  | ["eo", e] => (parseEdit? e).map HOp.editObj
+  | ["unc"] => some .uncache
+  | _ => none
+
+def parsePre? (s : String) : Option (List HOp) :=
+  if s = "_" then some [] else (s.splitOn ";").mapM parseHOp?
+
+def parsePost? (s : String) : Option (Option Fld) :=
+  if s = "_" then some none else (parseFld? s).map some
+
+def arrFTOf : InT → Option FT
+  | .flt 11 => some .f16
+  | .flt 24 => some .f32
+  | .flt 53 => some .f64
+  | _ => none
+
+def showSOpt (x : Option Rat) : String := match x with | none => "N" | some r => showRat r
+
+def handleRt (dec : Bool) (k dk : HK) (route : Route) (F : Flds) (g : GlCal) (post : Option Fld) (pre : List HOp)
+    (disk : Bool) (i : InT) (hd : DT) (arg : Option DT) (data : List Val) : String :=
+  -- where the data come from
+  let src : Except Err (InT × List Val × Bool) :=
+    if disk then
+      match i with
+      | .int lo hi => (loadData dk F g lo hi (data.filterMap fun v => match v with | .fin r => some r.floor | _ => none)).map
+                        fun (i', vs) => (i', vs, true)
+      | _ => .error .value
+    else .ok (i, data, false)
+  match src with
+  | .error _ => "ERR:HeaderDataError@load"
+  | .ok (i', vals, isProxy) =>
+    let f0 := routeFlds route dk k F
+    let f1 : Flds := match post with | none => f0 | some x => { f0 with inter := x }
+    let st := runH isProxy (if isProxy then none else arrFTOf i') (fun _ xs => xs) (ImgSt.init vals) pre
+    match toFileMapF k id 24 i' hd f1 arg st.written with
+    | none => "unmodelled"
+    | some (res, dsk, aft) =>
+      let tail := " H " ++ showDT hd ++ " " ++ showFld aft.slope ++ " " ++ showFld aft.inter
+      match res with
+      | .error e => showErr e ++ tail
+      | .ok (_, _, raw) =>
+        let caps := k.cls.caps
+        let d1 := if dec && caps.hasSlope then showFldKind dsk.slope else showFld dsk.slope
+        let d2 := if dec && caps.hasInter then showFldKind dsk.inter else showFld dsk.inter
+        match proxySI k dsk (if k = dk then g else .zero) with
+        | .error _ => "ERR:HeaderDataError@reload" ++ tail
+        | .ok (s, b) =>
+          (if dec then "ok " ++ (if s = 1 then "1" else "0") ++ " " ++ (if b = 0 then "1" else "0") ++ " " ++
+                       (if 0 < s then "+" else "-")
+           else "ok " ++ showRat s ++ " " ++ showRat b ++ " " ++ showList raw)
+          ++ " D " ++ d1 ++ " " ++ d2 ++ tail
+
 def handle : List String → String
+  | ["rd", k, sF, iF, gl] =>
+      match parseHK? k, parseFld? sF, parseFld? iF, parseGl? gl with
+      | some k, some sF, some iF, some g =>
+          match readSI k ⟨sF, iF⟩ g with
+          | .ok (s, b) => showSOpt s ++ " " ++ showSOpt b
+          | .error e => showErr e
+      | _, _, _, _ => "bad-op"
+  | [op, k, dk, route, sF, iF, gl, post, pre, src, i, hd, arg, vals] =>
+      if op ≠ "rt" ∧ op ≠ "rtd" then "bad-op" else
+      if src ≠ "arr" ∧ src ≠ "disk" then "bad-op" else
+      match parseHK? k, parseHK? dk, parseRoute? route, parseFld? sF, parseFld? iF, parseGl? gl, parsePost? post,
+            parsePre? pre, parseIn? i, parseDT? hd, parseArg? arg, parseVals? vals with
+      | some k, some dk, some route, some sF, some iF, some g, some post, some pre, some i, some hd, some arg, some vs =>
+          handleRt (op = "rtd") k dk route ⟨sF, iF⟩ g post pre (src = "disk") i hd arg vs
+      | _, _, _, _, _, _, _, _, _, _, _, _ => "bad-op"
   | ["save", cls, i, o, vals] =>
       match parseCls? cls, parseIn? i, parseOut? o, parseVals? vals with
       | some c, some i, some o, some vs =>
